@@ -160,6 +160,9 @@ func (c *MJImageComponent) Render(w io.StringWriter) error {
 		if target != "" {
 			linkTag.AddAttribute(constants.AttrTarget, target)
 		}
+		if name := c.GetAttributeWithDefault(c, "name"); name != "" {
+			linkTag.AddAttribute("name", name)
+		}
 
 		if err := linkTag.RenderOpen(w); err != nil {
 			return err
@@ -176,11 +179,21 @@ func (c *MJImageComponent) Render(w io.StringWriter) error {
 		imgTag.AddAttribute(constants.AttrHeight, imgHeight)
 	}
 	imgTag.AddAttribute(constants.AttrSrc, src)
+	// srcset, sizes and usemap are accepted attributes of mj-image and belong on the img, as in MJML
+	if srcset := c.GetAttributeWithDefault(c, "srcset"); srcset != "" {
+		imgTag.AddAttribute("srcset", srcset)
+	}
+	if sizes := c.GetAttributeWithDefault(c, "sizes"); sizes != "" {
+		imgTag.AddAttribute("sizes", sizes)
+	}
 	if title != "" {
 		imgTag.AddAttribute(constants.AttrTitle, title)
 	}
 	if imgWidth != "" {
 		imgTag.AddAttribute(constants.AttrWidth, imgWidth)
+	}
+	if usemap := c.GetAttributeWithDefault(c, "usemap"); usemap != "" {
+		imgTag.AddAttribute("usemap", usemap)
 	}
 
 	// Apply image styles
